@@ -18,7 +18,7 @@ EstT(off) == Shift(DocTransformL(Dense, GE, 2), -off)
 EstSplit(off) == LET A == DocTransformL(Dense, GE, 2)  B == DocTransformL(Dense, Pose(17, <<-4, 0, 6>>), 4) IN
                  Shift([Dense EXCEPT !.poses = [k \in 1..9 |-> IF k <= 5 THEN A.poses[k] ELSE B.poses[k]]], -off)
 Modes == <<"none", "sim", "scale", "origin", "scaleorigin">>
-Init == \E tool \in {"ape", "rpe"}, down \in {0, 5, 3}, lo \in {-1000, 2}, hi \in {1000, 6}, off \in {0, 3}, mi \in 1..5, nal \in {0, 3},
+Init == \E tool \in {"ape", "rpe"}, down \in {0, 5, 3, 7}, lo \in {-1000, 2}, hi \in {1000, 6}, off \in {0, 3}, mi \in 1..5, nal \in {0, 3},
            split \in BOOLEAN, head \in BOOLEAN, pi \in 1..3, rel \in {"trans", "deg", "full", "rotpart", "pdist"}, delta \in {1, 2, 3, 5, 9, 85, 100, 120, 170}, allp \in BOOLEAN, fmt \in {"tum", "euroc", "kitti"},
            dunit \in {"f", "m", "d", "r"}, fromref \in BOOLEAN, cu \in BOOLEAN, walk \in BOOLEAN :
           LET x == [tool |-> tool, ref |-> IF walk THEN Walk ELSE IF fmt = "kitti" THEN Dense ELSE IF head THEN RefHead ELSE RefT,
@@ -26,7 +26,7 @@ Init == \E tool \in {"ape", "rpe"}, down \in {0, 5, 3}, lo \in {-1000, 2}, hi \i
                     q |-> [down |-> down, mf |-> IF walk THEN 10005 ELSE 0, lo |-> lo, hi |-> hi, md |-> 0, off |-> off, mode |-> Modes[mi], nalign |-> nal,
                            plane |-> <<"none", "xy", "yz">>[pi], rel |-> rel, delta |-> delta, allpairs |-> allp,
                            dunit |-> dunit, fromref |-> fromref, cu |-> cu]] IN
-          /\ (walk => down = 0 /\ lo = -1000 /\ hi = 1000 /\ mi \in {1, 4} /\ nal = 0 /\ ~head /\ dunit = "f" /\ ~cu /\ pi = 1 /\ rel # "pdist")
+          /\ (down = 7 => walk) /\ (walk => down \in {0, 7} /\ lo = -1000 /\ hi = 1000 /\ mi \in {1, 4} /\ nal = 0 /\ ~head /\ dunit = "f" /\ ~cu /\ pi = 1 /\ rel # "pdist")
           /\ (fmt = "kitti" => off = 0 /\ lo = -1000 /\ hi = 1000 /\ ~head /\ ~walk /\ pi = 1)          \* no stamps: equally long files, pose k with pose k
           /\ (dunit \in {"d", "r"} => delta \in (IF allp THEN {85, 120} ELSE {100, 170}) /\ pi = 1 /\ down = 0 /\ ~split /\ ~cu /\ ~walk /\ rel \in {"trans", "deg"}
                                       /\ (allp => ~fromref))
